@@ -247,7 +247,8 @@ def reward_step(robj, cur, st, first):
         return robj
     if op == "eqplain":
         x = py(arg)
-        k, got = outcome(lambda: (robj == x, x == robj, robj != x))
+        builtin = type(x) in (int, float, str, list, tuple, dict)      # a builtin defers to the reward's __eq__; other classes decide for themselves
+        k, got = outcome(lambda: (robj == x, (x == robj) if builtin else (obs == "T"), robj != x))
         want = obs == "T"
         if k == "raise" or got != (want, want, not want):
             raise Mismatch("rewards:%s:eq:plain-value" % cls, "%r == %s, reflected, != gave %r; the spec says == is %s" % (robj, show(x), got, want))
@@ -657,7 +658,7 @@ def configs(ctx):
            ([] if q else [dict(name="rewards2", sec="rewards", size="quick", ops=2)]) + \
            [dict(name="rhist", sec="rhist", size="quick", ops=ctx.pick(2, 3)),
             dict(name="pairs", sec="pairs", size=ctx.pick("quick", "thorough"), ops=1),
-            dict(name="values", sec="values", size="quick", ops=ctx.pick(3, 4)),
+            dict(name="values", sec="values", size=ctx.pick("quick", "thorough"), ops=ctx.pick(3, 4)),
             dict(name="rows", sec="rows", size="quick", ops=ctx.pick(2, 3)),
             dict(name="inter", sec="inter", size="quick", ops=ctx.pick(1, 2)),
             dict(name="base", sec="base", size="quick", ops=ctx.pick(2, 3)),
@@ -683,7 +684,7 @@ def run(ctx):
     jobs = [(c["name"], subst(c["sec"], c["size"], c["ops"]), False) for c in C]
     jobs += [("guard-" + g, subst(sec, "quick", ops, g), True) for g, _, sec, ops, _ in GUARDS]
     jobs.sort(key=lambda j: 0 if j[0] in ("rewards", "values", "pairs", "rewards2", "rhist") else 1)
-    with ThreadPoolExecutor(max_workers=ctx.pick(5, 3)) as ex:
+    with ThreadPoolExecutor(max_workers=ctx.pick(4, 3)) as ex:
         results = dict(ex.map(tlc_job, jobs))
     rejected = {}
     for g, what, sec, ops, expect in GUARDS:
@@ -708,6 +709,7 @@ def run(ctx):
     ctx.exhaustive = True
     ctx.extra["behaviours"] = {k: len(v) for k, v in cases.items()}
 
+    ctx.extra["seconds_tlc"] = round(__import__("time").time() - ctx.t0, 1)
     # ---- 2. replay on the real classes ----
     taken = collections.Counter()
     steps_total = 0
@@ -727,6 +729,7 @@ def run(ctx):
             except Mismatch as m:
                 ctx.violation(m.sig, m.what, j)
         for j in cases[c["name"]][::max(1, len(cases[c["name"]]) // 3)][:3]: ctx.sample({"config": c["name"], "steps": j["steps"][:4]}, limit=12)
+        ctx.extra.setdefault("seconds_replay", {})[c["name"]] = round(__import__("time").time() - ctx.t0, 1)
 
     # ---- values: the part of a behaviour after `transport` runs in a python process with another hash salt ----
     for c in C:
